@@ -45,6 +45,41 @@ registry! {
     #[cfg(feature = "weak-ptrs")]
     h_count::h_weak_kernel,
     h_count::h_count_twin,
+    h_trace::h_finalize_forwarding,
+    h_trace::h_trace_array0,
+    h_trace::h_trace_array1,
+    h_trace::h_trace_array2,
+    h_trace::h_trace_array3,
+    h_trace::h_trace_array32,
+    h_trace::h_trace_array_option,
+    h_trace::h_trace_assertunwindsafe,
+    h_trace::h_trace_box,
+    h_trace::h_trace_boxed_slice,
+    h_trace::h_trace_manuallydrop,
+    h_trace::h_trace_nonowning,
+    h_trace::h_trace_option,
+    h_trace::h_trace_option_box_tuple,
+    h_trace::h_trace_refcell,
+    h_trace::h_trace_refcell_vec,
+    h_trace::h_trace_result,
+    h_trace::h_trace_result_vec,
+    h_trace::h_trace_tuple1,
+    h_trace::h_trace_tuple10,
+    h_trace::h_trace_tuple11,
+    h_trace::h_trace_tuple12,
+    h_trace::h_trace_tuple2,
+    h_trace::h_trace_tuple3,
+    h_trace::h_trace_tuple4,
+    h_trace::h_trace_tuple5,
+    h_trace::h_trace_tuple6,
+    h_trace::h_trace_tuple7,
+    h_trace::h_trace_tuple8,
+    h_trace::h_trace_tuple9,
+    h_trace::h_trace_tuple_vec_option,
+    h_trace::h_trace_twin,
+    h_trace::h_trace_vec,
+    h_trace::h_trace_vec_manuallydrop,
+    h_trace::h_trace_vec_option,
     #[cfg(feature = "auto-collect")]
     h_policy::h_policy_trigger,
     #[cfg(feature = "auto-collect")]
